@@ -20,6 +20,10 @@ theorem C08_admission_guard (now : Nat) (s s' : Sys) (oid : Oid) (o : Obs)
     o.est ≤ now ∧ o.status = .waiting ∧
     (o.demand : Int) ≤ (s.totalArrays : Int) - s.telUse ∧
     o.ingestDemand ≤ s.cl.available.length ∧
+    -- F14: new conjunct — the machines available exceed the demand by at least what the
+    -- reservation counter promises beyond the ingest pool (admitted earlier in the same pass)
+    (o.ingestDemand : Int) + max 0 (s.provIngest - (s.cl.ingest.length : Int)) ≤
+      (s.cl.available.length : Int) ∧
     s.cl.ingest.length + o.ingestDemand ≤ s.maxIngest ∧
     s.provIngest + o.ingestDemand ≤ s.maxIngest ∧
     o.rate * o.duration ≤ s.buf.hot.cur ∧ o.rate * o.duration < s.buf.hot.total ∧
@@ -33,7 +37,9 @@ resource free is admitted in that very block. -/
 theorem C08_on_time (now : Nat) (s : Sys) (oid : Oid) (o : Obs) (ho : s.obs? oid = some o)
     (hdue : o.est ≤ now) (hw : o.status = .waiting)
     (harr : (o.demand : Int) ≤ (s.totalArrays : Int) - s.telUse)
-    (hav : o.ingestDemand ≤ s.cl.available.length) (hlim : o.ingestDemand ≤ s.maxIngest)
+    -- F14: `hav` is the new test: demand + promised ≤ available (was: demand ≤ available)
+    (hav : (o.ingestDemand : Int) + max 0 (s.provIngest - (s.cl.ingest.length : Int)) ≤
+      (s.cl.available.length : Int)) (hlim : o.ingestDemand ≤ s.maxIngest)
     (hing : s.cl.ingest.length + o.ingestDemand ≤ s.maxIngest)
     (hprov : s.provIngest + o.ingestDemand ≤ s.maxIngest)
     (hdur : 1 ≤ o.duration)
